@@ -97,9 +97,37 @@ impl DivSpecImpl<f64> for Vector3 {
     open spec fn div_req(self, rhs: f64) -> bool { true }
     open spec fn div_spec(self, rhs: f64) -> Vector3 { vec_div_s(self, rhs) }
 }
+impl core::ops::Mul<f64> for Vector3 { type Output = Vector3; #[verifier::external_body] fn mul(self, rhs: f64) -> Vector3 { unimplemented!() } }
+impl MulSpecImpl<f64> for Vector3 {
+    open spec fn obeys_mul_spec() -> bool { true }
+    open spec fn mul_req(self, rhs: f64) -> bool { true }
+    open spec fn mul_spec(self, rhs: f64) -> Vector3 { vec_scale_s(rhs, self) }     // v * k == k * v
+}
+/// M2 (cartesian.rs, C12): `v / k` for a finite vector and a finite non-zero k, stated without division: k * (v / k) == v
+pub broadcast axiom fn ax_vec_div(a: Vector3, k: f64)
+    requires a.vfin(), fin(k), rv(k) != 0real
+    ensures (#[trigger] vec_div_s(a, k)).vfin(), vscale(rv(k), vec_div_s(a, k).v()) == a.v();
+/// `a.lerp(&b, t)` == a + t (b - a)  (M2: exact)
+pub uninterp spec fn lerp_c(a: Vector3, b: Vector3, t: f64, i: int) -> f64;
+pub open spec fn lerp_s(a: Vector3, b: Vector3, t: f64) -> Vector3 { Vector3 { x: lerp_c(a, b, t, 0), y: lerp_c(a, b, t, 1), z: lerp_c(a, b, t, 2) } }
+pub broadcast axiom fn ax_lerp(a: Vector3, b: Vector3, t: f64)
+    requires a.vfin(), b.vfin(), fin(t)
+    ensures (#[trigger] lerp_s(a, b, t)).vfin(), lerp_s(a, b, t).v() == vadd(a.v(), vscale(rv(t), vsub(b.v(), a.v())));
+impl Vector3 {
+    #[verifier::external_body]
+    pub fn lerp(&self, rhs: &Vector3, t: f64) -> (r: Vector3) ensures r == lerp_s(*self, *rhs, t) { unimplemented!() }
+}
+/// rotation angle of a unit quaternion and spherical interpolation: deterministic functions of their arguments (nalgebra; what
+/// they compute is not modelled)
+pub uninterp spec fn quat_angle_s(a: UnitQuaternion) -> f64;
+pub uninterp spec fn slerp_s(a: UnitQuaternion, b: UnitQuaternion, t: f64) -> UnitQuaternion;
 impl UnitQuaternion {
     #[verifier::external_body]
     pub fn inverse(&self) -> (r: UnitQuaternion) ensures r == quat_inv_s(*self) { unimplemented!() }
+    #[verifier::external_body]
+    pub fn angle(&self) -> (r: f64) ensures r == quat_angle_s(*self) { unimplemented!() }
+    #[verifier::external_body]
+    pub fn slerp(&self, other: &UnitQuaternion, t: f64) -> (r: UnitQuaternion) ensures r == slerp_s(*self, *other, t) { unimplemented!() }
     #[verifier::external_body]
     pub fn scaled_axis(&self) -> (r: Vector3) ensures r == scaled_axis_s(*self) { unimplemented!() }
 }
